@@ -7,6 +7,15 @@
  *   - trace: the order in which callbacks complete (by submission ticket), written at exit to C02_TRACE_FILE as
  *       submitted=<n> overtakes=<items that completed before an earlier submitted one> order=<fnv of the order>
  *       workers=<pool->get_worker_count> fifo=<dequeue order = submit order>
+ *   - C02_PERTURB_MODE (with C02_PERTURB_SEED): which worker gets which block is what per-worker compressor state would
+ *     leak through, so two modes bias the *assignment* instead of the completion order:
+ *       1  the first callback invocation of the run is delayed by C02_PERTURB_FIRST_MS (default 40) milliseconds: the
+ *          worker that picked up the first block is stuck, the other workers compress everything that follows;
+ *       2  round robin: a worker that has finished an item waits (at most ~2 ms) until another thread has started one,
+ *          so consecutive blocks are compressed by different workers;
+ *     the trace gains handoffs=<number of consecutive tickets that were started by different threads>, perturb=<the seed was
+ *     seen>, mode=, delays=<number of delays / waits actually applied>, started=<callbacks run> (the check treats a missing
+ *     trace or a perturbation that never fired as an infrastructure failure).
  * Without C02_PERTURB_SEED the callback is only traced.
  */
 #include "config.h"
@@ -27,7 +36,10 @@ static void **sub_ptr;
 static unsigned char *done_flag;
 static size_t n_sub, n_deq, lo_live, n_overtake;
 static uint64_t ord_hash = 14695981039346656037ULL;
-static int fifo_ok = 1, perturb, max_us;
+static int fifo_ok = 1, perturb, max_us, mode, first_ms = 40, first_done;
+static size_t n_started, n_handoff, n_delays;
+static pthread_t last_starter;
+static int have_starter;
 static uint64_t seed;
 static size_t nworkers;
 
@@ -50,6 +62,7 @@ static void delay(uint64_t r)
 {
 	unsigned k = (unsigned)(r % 8);
 	if (k < 3) return;
+	__sync_fetch_and_add(&n_delays, 1);
 	if (k < 5) { sched_yield(); return; }
 	usleep((useconds_t)((r >> 8) % (uint64_t)(max_us + 1)));
 }
@@ -58,12 +71,38 @@ static int traced_worker(void *user, void *item)
 {
 	size_t t, i;
 	int r;
+	size_t my_start;
+	int was_first;
 	pthread_mutex_lock(&mtx);
 	t = ticket_of(item);
+	if (have_starter && !pthread_equal(last_starter, pthread_self())) ++n_handoff;
+	last_starter = pthread_self();
+	have_starter = 1;
+	my_start = ++n_started;
+	was_first = !first_done;
+	first_done = 1;
 	pthread_mutex_unlock(&mtx);
-	if (perturb) delay(mix(seed ^ (uint64_t)(t + 1) * 0x9e3779b97f4a7c15ULL));
+	if (perturb && mode == 1) {
+		if (was_first) { usleep((useconds_t)first_ms * 1000); __sync_fetch_and_add(&n_delays, 1); }
+	} else if (perturb) {
+		delay(mix(seed ^ (uint64_t)(t + 1) * 0x9e3779b97f4a7c15ULL));
+	}
 	r = real_worker(user, item);
-	if (perturb) delay(mix(seed + 77 + (uint64_t)(t + 1) * 0xd6e8feb86659fd93ULL));
+	if (perturb && mode == 2 && nworkers > 1) {
+		/* let somebody else take the next item */
+		int spins;
+		for (spins = 0; spins < 40; ++spins) {
+			size_t cur;
+			pthread_mutex_lock(&mtx);
+			cur = n_started;
+			pthread_mutex_unlock(&mtx);
+			if (cur != my_start) break;
+			if (spins == 0) __sync_fetch_and_add(&n_delays, 1);
+			usleep(50);
+		}
+	} else if (perturb && mode != 1) {
+		delay(mix(seed + 77 + (uint64_t)(t + 1) * 0xd6e8feb86659fd93ULL));
+	}
 	pthread_mutex_lock(&mtx);
 	if (t != (size_t)-1 && t < MAXI) {
 		int over = 0;
@@ -113,8 +152,8 @@ static void dump(void)
 	if (!path) return;
 	f = fopen(path, "w");
 	if (!f) return;
-	fprintf(f, "submitted=%zu overtakes=%zu order=%016llx workers=%zu fifo=%d\n", n_sub, n_overtake,
-		(unsigned long long)ord_hash, nworkers, fifo_ok);
+	fprintf(f, "submitted=%zu overtakes=%zu order=%016llx workers=%zu fifo=%d handoffs=%zu perturb=%d mode=%d delays=%zu started=%zu\n", n_sub,
+		n_overtake, (unsigned long long)ord_hash, nworkers, fifo_ok, n_handoff, perturb, mode, n_delays, n_started);
 	fclose(f);
 }
 
@@ -127,6 +166,8 @@ thread_pool_t *__wrap_thread_pool_create(size_t num_jobs, thread_pool_worker_t w
 	perturb = s != NULL;
 	seed = s ? strtoull(s, NULL, 10) : 0;
 	max_us = u ? atoi(u) : 200;
+	mode = getenv("C02_PERTURB_MODE") ? atoi(getenv("C02_PERTURB_MODE")) : 0;
+	first_ms = getenv("C02_PERTURB_FIRST_MS") ? atoi(getenv("C02_PERTURB_FIRST_MS")) : 40;
 	if (!sub_ptr) {
 		sub_ptr = calloc(MAXI, sizeof(*sub_ptr));
 		done_flag = calloc(MAXI, 1);
